@@ -87,3 +87,245 @@ Proof.
                 | apply index_commutes_hodge | apply index_commutes_sw | apply index_commutes_proj | apply index_commutes_normsq].
 Qed.
 Print Assumptions C16_index_commutes.
+
+(* ------------------------------------------------------------------------------------------------
+   storage, indexing, assignment, operand normalisation: theorems about Model/Storage.v, the executable
+   model of MultiVector.__getitem__ / __setitem__ / shape / itermv / items / map and of
+   OperatorDict.__call__ / _call_binary (tied to the code by the in-Coq correspondence of tools/props/C16.py).
+   R is an arbitrary coefficient type; an array-valued coefficient is a [list R] (one trailing axis).
+   Definitions used in the statements (Theory/Storage.v): [wf_store] a 2-D ndarray is rectangular;
+   [entries] the coefficients `_values` iterates over; [get_coef ix v] = v[ix]; [addr_of n ix] the position /
+   positions a subscript tuple addresses on an axis of length n; [addressed n ix q]; [frame_coef ix s s']: s'
+   is s up to the addressed entries; [bcast_coef ad o]: o broadcast to the addressed shape;
+   [denote] / [eval_tree]: the fuel-free specification of `left op right`. *)
+From Coq Require Import ZArith.
+From KV Require Import Model.Storage Theory.Storage.
+Local Open Scope nat_scope.
+
+(* which subscripts raise: IndexError exactly for an integer outside [-n, n) or too many subscripts, ValueError
+   exactly for a zero slice step *)
+Theorem C16_subscript_raises : forall (n : nat) (ix : list idx1) (e : err),
+  addr_of n ix = Err e <->
+  (exists i : Z, ix = [IInt i] /\ e = EIndex /\ ((i < - Z.of_nat n)%Z \/ (Z.of_nat n <= i)%Z)) \/
+  (exists s : pyslice, ix = [ISlice s] /\ e = EValue /\ sl_step s = Some 0%Z) \/
+  2 <= length ix /\ e = EIndex.
+Proof. exact addr_of_Err. Qed.
+Print Assumptions C16_subscript_raises.
+
+Theorem C16_slice_positions : forall (n : nat) (s : pyslice) (ps : list nat),
+  slice_pos n s = Ok ps -> Forall (fun p : nat => p < n) ps /\ NoDup ps.
+Proof. exact slice_pos_wf. Qed.
+Print Assumptions C16_slice_positions.
+
+Theorem C16_slice_meaning : forall (n : nat) (s : pyslice) (start stop step : Z) (ps : list nat),
+  slice_indices (Z.of_nat n) s = Ok (start, stop, step) -> (0 < step)%Z -> slice_pos n s = Ok ps ->
+  forall p : nat, In p ps <-> (start <= Z.of_nat p < stop)%Z /\ ((Z.of_nat p - start) mod step)%Z = 0%Z.
+Proof. exact slice_pos_meaning. Qed.
+Print Assumptions C16_slice_meaning.
+
+(* X[idx]: same keys in the same order, for every key exactly values[key][idx]; the three storage kinds *)
+Theorem C16_getitem_exact : forall (R : Type) (X : smv R) (item : pyidx) (Y : smv R),
+  wf_store (s_vals X) -> mv_getitem X item = Ok Y ->
+  s_keys Y = s_keys X /\
+  Forall2 (fun v v' : coef R => get_coef (norm_item item) v = Ok v') (entries (s_vals X)) (entries (s_vals Y)) /\
+  wf_store (s_vals Y).
+Proof. exact @getitem_exact. Qed.
+Print Assumptions C16_getitem_exact.
+
+Theorem C16_getitem_raises : forall (R : Type) (X : smv R) (item : pyidx) (e : err),
+  wf_store (s_vals X) ->
+  (mv_getitem X item = Err e <->
+   match s_vals X with
+   | LBack l => exists (pre : list (coef R)) (c : coef R) (post cs : list (coef R)),
+                  l = pre ++ c :: post /\
+                  Forall2 (fun v v' : coef R => get_coef (norm_item item) v = Ok v') pre cs /\
+                  get_coef (norm_item item) c = Err e
+   | Nd1 _ => norm_item item <> [] /\ e = EIndex
+   | Nd2 n _ => addr_of n (norm_item item) = Err e
+   end).
+Proof. exact @getitem_raises. Qed.
+Print Assumptions C16_getitem_raises.
+
+Theorem C16_getitem_int_index_error : forall (R : Type) (keys : list Z) (n : nat) (rows : list (list R)) (i : Z),
+  Forall (fun r : list R => length r = n) rows ->
+  (mv_getitem (mkSmv keys (Nd2 n rows)) (PyOne (IInt i)) = Err EIndex <-> (i < - Z.of_nat n)%Z \/ (Z.of_nat n <= i)%Z) /\
+  (forall e : err, mv_getitem (mkSmv keys (Nd2 n rows)) (PyOne (IInt i)) = Err e -> e = EIndex).
+Proof. exact @getitem_int_nd2. Qed.
+Print Assumptions C16_getitem_int_index_error.
+
+Theorem C16_getitem_int_index_error_list : forall (R : Type) (keys : list Z) (arrs : list (list R)) (n : nat) (i : Z),
+  arrs <> [] -> Forall (fun a : list R => length a = n) arrs ->
+  (mv_getitem (mkSmv keys (LBack (map CArr arrs))) (PyOne (IInt i)) = Err EIndex
+   <-> (i < - Z.of_nat n)%Z \/ (Z.of_nat n <= i)%Z).
+Proof. exact @getitem_int_list. Qed.
+Print Assumptions C16_getitem_int_index_error_list.
+
+Theorem C16_getitem_slice_total : forall (R : Type) (keys : list Z) (st : store R) (s : pyslice),
+  wf_store st ->
+  (exists arrs : list (list R), st = LBack (map CArr arrs)) \/ (exists (n : nat) (rows : list (list R)), st = Nd2 n rows) ->
+  sl_step s <> Some 0%Z -> exists Y : smv R, mv_getitem (mkSmv keys st) (PyOne (ISlice s)) = Ok Y.
+Proof. exact @getitem_slice_total. Qed.
+Print Assumptions C16_getitem_slice_total.
+
+(* X[i] is the evaluation map of C16_index_commutes (an array a is the function p |-> nth p a d) *)
+Theorem C16_getitem_is_evaluation : forall (R : Type) (keys : list Z) (arrs : list (list R)) (n : nat) (i : Z) (p : nat) (d : R),
+  Forall (fun a : list R => length a = n) arrs -> norm_int n i = Ok p ->
+  mv_getitem (mkSmv keys (LBack (map CArr arrs))) (PyOne (IInt i))
+  = Ok (mkSmv keys (LBack (map (fun a : list R => CNp (nth p a d)) arrs))).
+Proof. exact @getitem_int_is_evaluation. Qed.
+Print Assumptions C16_getitem_is_evaluation.
+
+(* X[idx] = V, FRAME: whatever is assigned, whether or not it raises -- kind of storage, number and length of the
+   coefficients unchanged; an entry the subscript does not address keeps its value; numbers never change *)
+Theorem C16_setitem_frame : forall (R : Type) (X : smv R) (item : pyidx) (V : rhs R) (st' : store R) (e : option err),
+  mv_setitem X item V = (st', e) ->
+  Forall2 (frame_coef (norm_item item)) (entries (s_vals X)) (entries st') /\
+  same_kind (s_vals X) st' /\ (wf_store (s_vals X) -> wf_store st').
+Proof. exact @setitem_frame. Qed.
+Print Assumptions C16_setitem_frame.
+
+(* EXACT: a successful assignment of a multivector is, coefficient by coefficient (blade by blade),
+   the 1-D assignment a[idx] = o of V's coefficient of the SAME blade, for every storage kind *)
+Theorem C16_setitem_exact : forall (R : Type) (X : smv R) (item : pyidx) (ks : list Z) (vst st' : store R),
+  mv_setitem X item (FromMv ks vst) = (st', None) ->
+  ks = s_keys X /\
+  Forall2 (fun (so : coef R * coef R) (s' : coef R) => assign_coef (norm_item item) (fst so) (snd so) = Ok s')
+          (combine (entries (s_vals X)) (entries vst)) (firstn (length (entries vst)) (entries st')) /\
+  skipn (length (entries vst)) (entries st') = skipn (length (entries vst)) (entries (s_vals X)) /\
+  length (entries st') = length (entries (s_vals X)).
+Proof. exact @setitem_exact. Qed.
+Print Assumptions C16_setitem_exact.
+
+(* round trip: afterwards X[idx] holds V's coefficients, each broadcast to the addressed shape of its own blade *)
+Theorem C16_getitem_setitem : forall (R : Type) (X : smv R) (item : pyidx) (ks : list Z) (vst st' : store R) (Y : smv R),
+  wf_store (s_vals X) -> length (entries vst) = length (entries (s_vals X)) ->
+  mv_setitem X item (FromMv ks vst) = (st', None) ->
+  mv_getitem (mkSmv (s_keys X) st') item = Ok Y ->
+  s_keys Y = s_keys X /\
+  Forall2 (fun (so : coef R * coef R) (y : coef R) =>
+             exists ad : addr, addr_of (coef_len (fst so)) (norm_item item) = Ok ad /\ y = bcast_coef ad (snd so))
+          (combine (entries (s_vals X)) (entries vst)) (entries (s_vals Y)).
+Proof. exact @getitem_setitem. Qed.
+Print Assumptions C16_getitem_setitem.
+
+Theorem C16_getitem_setitem_aligned : forall (R : Type) (X : smv R) (item : pyidx) (ks : list Z) (vst st' : store R) (Y : smv R),
+  wf_store (s_vals X) -> length (entries vst) = length (entries (s_vals X)) ->
+  Forall (fun so : coef R * coef R =>
+            forall ad : addr, addr_of (coef_len (fst so)) (norm_item item) = Ok ad -> aligned ad (snd so))
+         (combine (entries (s_vals X)) (entries vst)) ->
+  mv_setitem X item (FromMv ks vst) = (st', None) ->
+  mv_getitem (mkSmv (s_keys X) st') item = Ok Y ->
+  s_keys Y = s_keys X /\ entries (s_vals Y) = map np_of (entries vst).
+Proof. exact @getitem_setitem_aligned. Qed.
+Print Assumptions C16_getitem_setitem_aligned.
+
+(* number coefficients: every blade receives its own number on every addressed entry (fixed finding 76adadb) *)
+Theorem C16_setitem_scalar_broadcast : forall (R : Type) (X : smv R) (item : pyidx) (ks : list Z) (vst st' : store R) (Y : smv R),
+  wf_store (s_vals X) -> length (entries vst) = length (entries (s_vals X)) ->
+  Forall (fun o : coef R => exists x : R, is_scalar o x) (entries vst) ->
+  mv_setitem X item (FromMv ks vst) = (st', None) ->
+  mv_getitem (mkSmv (s_keys X) st') item = Ok Y ->
+  Forall2 (fun (so : coef R * coef R) (y : coef R) =>
+             exists (ad : addr) (x : R),
+               addr_of (coef_len (fst so)) (norm_item item) = Ok ad /\ is_scalar (snd so) x /\
+               y = match ad with AOne _ => CNp x | AMany ps => CArr (repeat x (length ps)) end)
+          (combine (entries (s_vals X)) (entries vst)) (entries (s_vals Y)).
+Proof. exact @setitem_scalar_broadcast. Qed.
+Print Assumptions C16_setitem_scalar_broadcast.
+
+Theorem C16_setitem_succeeds_iff : forall (R : Type) (X : smv R) (item : pyidx) (vst : store R),
+  length (entries vst) = length (entries (s_vals X)) ->
+  ((exists st' : store R, mv_setitem X item (FromMv (s_keys X) vst) = (st', None)) <->
+   Forall (fun so : coef R * coef R =>
+             exists (a : list R) (ad : addr),
+               fst so = CArr a /\ addr_of (length a) (norm_item item) = Ok ad /\ compatible ad (snd so))
+          (combine (entries (s_vals X)) (entries vst))).
+Proof. exact @setitem_succeeds_iff. Qed.
+Print Assumptions C16_setitem_succeeds_iff.
+
+(* what one blade's assignment raises: TypeError for a number, the subscript's error, else ValueError exactly
+   when the value cannot be broadcast *)
+Theorem C16_assignment_raises : forall (R : Type) (ix : list idx1) (s o : coef R) (e : err),
+  assign_coef ix s o = Err e ->
+  (forall a : list R, s <> CArr a) /\ e = EType \/
+  (exists a : list R, s = CArr a /\
+     (addr_of (length a) ix = Err e \/
+      (exists ad : addr, addr_of (length a) ix = Ok ad /\ e = EValue /\ ~ compatible ad o))).
+Proof. exact @assign_coef_Err. Qed.
+Print Assumptions C16_assignment_raises.
+
+Theorem C16_setitem_of_getitem : forall (R : Type) (X : smv R) (item : pyidx) (Y : smv R),
+  Forall (fun c : coef R => exists a : list R, c = CArr a) (entries (s_vals X)) ->
+  mv_getitem X item = Ok Y -> wf_store (s_vals X) ->
+  mv_setitem X item (FromMv (s_keys X) (s_vals Y)) = (s_vals X, None).
+Proof. exact @setitem_of_getitem. Qed.
+Print Assumptions C16_setitem_of_getitem.
+
+Theorem C16_setitem_keys_mismatch : forall (R : Type) (X : smv R) (item : pyidx) (ks : list Z) (vst : store R),
+  ks <> s_keys X -> mv_setitem X item (FromMv ks vst) = (s_vals X, Some EValue).
+Proof. exact @setitem_keys_mismatch. Qed.
+Print Assumptions C16_setitem_keys_mismatch.
+
+(* operands: for ALL operands (numbers, multivectors, lists, tuples, nested callables, any nesting) and every
+   operator f, _call_binary with enough fuel is the structural specification; fuel above the bound is irrelevant *)
+Theorem C16_operands_spec : forall (R : Type) (self_alg : nat) (f : mv R -> mv R -> res (mv R)) (n : nat) (l r : operand R),
+  osize l + osize r < n ->
+  call_binary self_alg f n l r = eval_tree f (denote self_alg l) (denote self_alg r).
+Proof. exact @call_binary_spec. Qed.
+Print Assumptions C16_operands_spec.
+
+Theorem C16_fuel_irrelevant : forall (R : Type) (self_alg : nat) (f : mv R -> mv R -> res (mv R)) (n : nat) (l r : operand R),
+  osize l + osize r < n -> call_binary self_alg f n l r = call_binary_total self_alg f l r.
+Proof. exact @call_binary_fuel. Qed.
+Print Assumptions C16_fuel_irrelevant.
+
+Theorem C16_scalar_wrap : forall (R : Type) (self_alg : nat) (f : mv R -> mv R -> res (mv R)) (c : R) (o : operand R),
+  call_binary_total self_alg f (ONum c) o = call_binary_total self_alg f (OMv self_alg [(0%Z, c)]) o /\
+  call_binary_total self_alg f o (ONum c) = call_binary_total self_alg f o (OMv self_alg [(0%Z, c)]).
+Proof. exact @scalar_wrap. Qed.
+Print Assumptions C16_scalar_wrap.
+
+Theorem C16_list_maps : forall (R : Type) (self_alg : nat) (f : mv R -> mv R -> res (mv R)) (xs : list (operand R)) (o : operand R),
+  let ev := call_binary_total self_alg f in
+  ev o (OSeq xs) = (s <- mapM (fun x => ev o x) xs ;; Ok (RSeq s)) /\
+  ev o (OTup xs) = (s <- mapM (fun x => ev o x) xs ;; Ok (RTup s)) /\
+  (atomic self_alg o ->
+   ev (OSeq xs) o = (s <- mapM (fun x => ev x o) xs ;; Ok (RSeq s)) /\
+   ev (OTup xs) o = (s <- mapM (fun x => ev x o) xs ;; Ok (RTup s))).
+Proof. exact @seq_maps. Qed.
+Print Assumptions C16_list_maps.
+
+Theorem C16_callable_unwrap : forall (R : Type) (self_alg : nat) (f : mv R -> mv R -> res (mv R)) (j k : nat) (l r : operand R),
+  call_binary_total self_alg f (ncall j l) (ncall k r) = call_binary_total self_alg f l r.
+Proof. exact @callable_unwrap. Qed.
+Print Assumptions C16_callable_unwrap.
+
+(* `left op right` keeps its order: on two multivectors, and element-wise: [x, y] op z = [x op z, y op z],
+   z op [x, y] = [z op x, z op y] *)
+Theorem C16_operand_order_sequences : forall (R : Type) (self_alg : nat) (f : mv R -> mv R -> res (mv R)) (a : nat) (x y z : mv R),
+  let ev := call_binary_total self_alg f in
+  ev (OMv a x) (OMv a y) = (m <- f x y ;; Ok (RMv m)) /\
+  ev (OSeq [OMv a x; OMv a y]) (OMv a z) = (u <- f x z ;; v <- f y z ;; Ok (RSeq [RMv u; RMv v])) /\
+  ev (OMv a z) (OSeq [OMv a x; OMv a y]) = (u <- f z x ;; v <- f z y ;; Ok (RSeq [RMv u; RMv v])).
+Proof. exact @operand_order. Qed.
+Print Assumptions C16_operand_order_sequences.
+
+Theorem C16_same_value_same_result : forall (R : Type) (self_alg : nat) (f : mv R -> mv R -> res (mv R)) (l l' r r' : operand R),
+  denote self_alg l = denote self_alg l' -> denote self_alg r = denote self_alg r' ->
+  call_binary_total self_alg f l r = call_binary_total self_alg f l' r'.
+Proof. exact @same_value_same_result. Qed.
+Print Assumptions C16_same_value_same_result.
+
+Theorem C16_sequence_raises_first : forall (R : Type) (self_alg : nat) (f : mv R -> mv R -> res (mv R)) (l : operand R) (xs : list (operand R)) (e : err),
+  call_binary_total self_alg f l (OSeq xs) = Err e <->
+  (exists (pre : list (operand R)) (x : operand R) (post : list (operand R)) (rs : list (result R)),
+     xs = pre ++ x :: post /\
+     Forall2 (fun (a : operand R) (b : result R) => call_binary_total self_alg f l a = Ok b) pre rs /\
+     call_binary_total self_alg f l x = Err e).
+Proof. exact @seq_right_raises. Qed.
+Print Assumptions C16_sequence_raises_first.
+
+Theorem C16_algebra_check : forall (R : Type) (self_alg : nat) (f : mv R -> mv R -> res (mv R)) (a b : nat) (x y : mv R),
+  a <> b -> call_binary_total self_alg f (OMv a x) (OMv b y) = Err EAlgebra.
+Proof. exact @algebra_check. Qed.
+Print Assumptions C16_algebra_check.
